@@ -223,7 +223,7 @@ func (c *ctl) fnEmit(i int) (int, error) {
 func StepFn(step string, s int) int {
 	switch step {
 	case "double":
-		return 2 * s
+		return (2 * s) % 1009
 	case "const":
 		return s
 	}
@@ -529,9 +529,9 @@ func (c *ctl) inputVals(i int) []int {
 func (c *ctl) enabled(cmd Cmd) bool {
 	switch cmd.C {
 	case "send":
-		return cmd.I < len(c.ins) && !c.sendPend[cmd.I] && !c.inClosed[cmd.I] && c.sendIdx[cmd.I] < len(c.inputVals(cmd.I))
+		return cmd.I < len(c.ins) && !c.sendPend[cmd.I] && !c.inClosed[cmd.I] && c.sendIdx[cmd.I] < len(c.inputVals(cmd.I)) && !c.libOwnsInput()
 	case "close":
-		return cmd.I < len(c.ins) && !c.sendPend[cmd.I] && !c.inClosed[cmd.I]
+		return cmd.I < len(c.ins) && !c.sendPend[cmd.I] && !c.inClosed[cmd.I] && !c.libOwnsInput()
 	case "recv":
 		_, ok := c.outs[cmd.O]
 		return ok && !c.recvPend[cmd.O] && !c.seen[cmd.O]
@@ -544,6 +544,10 @@ func (c *ctl) enabled(cmd Cmd) bool {
 	}
 	return false
 }
+
+// pipe.New closes its send side itself when the context is cancelled: from then on the channel is no longer the
+// environment's to use (a send or a close would be a use of a channel somebody else closes).
+func (c *ctl) libOwnsInput() bool { return c.cfg.Kind == "New" && c.cancelled }
 
 // pick returns the sequence number of the pending call to release: the oldest one whose element is x (x = -1: the oldest).
 func (c *ctl) pick(x int) int {
